@@ -104,7 +104,10 @@ def r04_4(ctx):
         for e in puts:
             root = obj_root(q.E[e][2]['args'][2])
             W = q.edges(lambda ev: ev['k'] == 'usercb' and callback_kind(ctx, q, ev) == 'populate' and ev['args'] and obj_root(ev['args'][0]) == root)
-            if W:
+            # ... and by nothing else: a file that also receives a copy of a hit is a promotion, not the miss path
+            copied = q.edges(lambda ev: ev['k'] == 'ext' and cls_of(ev) == 'content_write' and arg_role(ev, 'src') is not None
+                             and obj_root(arg_role(ev, 'handle')) == root)
+            if W and not copied:
                 miss.append(e)
         if not miss:
             continue
